@@ -130,13 +130,14 @@ type idxCons struct {
 }
 
 type idxSolver struct {
-	c        *Ctx
-	fn       *ssa.Function
-	defs     []idxCons // valid everywhere in fn
-	facts    []idxCons // valid at the query point
-	byA      map[idxNode][]idxCons
-	byB      map[idxNode][]idxCons
-	phiDepth int
+	c         *Ctx
+	fn        *ssa.Function
+	defs      []idxCons // valid everywhere in fn
+	facts     []idxCons // valid at the query point
+	byA       map[idxNode][]idxCons
+	byB       map[idxNode][]idxCons
+	phiDepth  int
+	edgeDepth int
 }
 
 type retRange struct {
@@ -321,6 +322,22 @@ func (s *idxSolver) callDefs(call *ssa.Call) {
 		}
 	case name == "(*regexp.Regexp).FindStringSubmatch" || name == "(*regexp.Regexp).FindSubmatch":
 		// nil or 1+NumSubexp elements: nothing usable without a nil test
+	}
+	// len(strings.Split(x, sep)) == strings.Count(x, sep) + 1 for a non-empty constant sep: links a split (made
+	// here, or by a module function that only returns strings.Split(param, sep)) to a Count of the same string
+	if op, sep, ok := s.splitOf(call); ok {
+		for _, b := range s.fn.Blocks {
+			for _, in := range b.Instrs {
+				cc, isCall := in.(*ssa.Call)
+				if !isCall || staticName(&cc.Call) != "strings.Count" {
+					continue
+				}
+				csep, isC := prog.ConstString(cc.Call.Args[1])
+				if isC && csep == sep && stripConvs(cc.Call.Args[0]) == stripConvs(op) {
+					s.eq(d, ln(v), vn(cc), 1)
+				}
+			}
+		}
 	}
 	// return-range summaries of module functions
 	if cal := call.Call.StaticCallee(); cal != nil && s.c.P.InModule(cal) && isIntType(call.Type()) {
@@ -567,8 +584,12 @@ func (s *idxSolver) proveUB(n, src idxNode, c int64, active map[proveKey]activeE
 		if phi, ok := n.v.(*ssa.Phi); ok {
 			s.phiDepth++
 			defer func() { s.phiDepth-- }()
-			for _, e := range phi.Edges {
-				if !s.proveUB(vn(e), src, c, active, depth+1) {
+			for i, e := range phi.Edges {
+				if s.proveUB(vn(e), src, c, active, depth+1) {
+					continue
+				}
+				// the value flows in along one edge: what holds on that edge may be used for it
+				if !s.underEdge(phi.Block().Preds[i], phi.Block(), func() bool { return s.proveUB(vn(e), src, c, active, depth+1) }) {
 					return false
 				}
 			}
@@ -576,6 +597,23 @@ func (s *idxSolver) proveUB(n, src idxNode, c int64, active map[proveKey]activeE
 		}
 	}
 	return false
+}
+
+// underEdge runs a sub-proof with the branch facts of the CFG edge pred->succ instead of those of the query
+// point, then restores them. Sound for the value a phi receives along that edge: the facts hold at the moment
+// the value flows in. Nested at most twice.
+func (s *idxSolver) underEdge(pred, succ *ssa.BasicBlock, f func() bool) bool {
+	if s.edgeDepth >= 2 {
+		return false
+	}
+	s.edgeDepth++
+	saveFacts, saveA, saveB := s.facts, s.byA, s.byB
+	s.facts = nil
+	s.factsOnEdge(pred, succ)
+	ok := f()
+	s.facts, s.byA, s.byB = saveFacts, saveA, saveB
+	s.edgeDepth--
+	return ok
 }
 
 // proveLB: src - n <= c   (n >= src - c).
@@ -617,8 +655,11 @@ func (s *idxSolver) proveLB(n, src idxNode, c int64, active map[proveKey]activeE
 			}
 			s.phiDepth++
 			defer func() { s.phiDepth-- }()
-			for _, e := range phi.Edges {
-				if !s.proveLB(vn(e), src, c, active, depth+1) {
+			for i, e := range phi.Edges {
+				if s.proveLB(vn(e), src, c, active, depth+1) {
+					continue
+				}
+				if !s.underEdge(phi.Block().Preds[i], phi.Block(), func() bool { return s.proveLB(vn(e), src, c, active, depth+1) }) {
 					return false
 				}
 			}
@@ -869,6 +910,7 @@ func (c *Ctx) PanicIDX(rule string, entry ...string) []report.Obligation {
 //     other member is one initial value created in the same block as m (so a fresh slice never meets an old map);
 //  4. after the update, in the same iteration, every phi edge of the family carries A (the grown slice is not
 //     dropped), and the indexed access is not reachable from the update within the iteration;
+//
 // then every stored position p satisfies 0 <= p <= len(x)-1 for every family value x read later.
 func indexMapIdiom(x, idx ssa.Value, at *ssa.BasicBlock) bool {
 	ex, ok := idx.(*ssa.Extract)
@@ -1045,4 +1087,64 @@ func indexMapIdiom(x, idx ssa.Value, at *ssa.BasicBlock) bool {
 		}
 	}
 	return true
+}
+
+func stripConvs(v ssa.Value) ssa.Value {
+	for {
+		switch x := v.(type) {
+		case *ssa.ChangeType:
+			v = x.X
+		case *ssa.Convert:
+			v = x.X
+		default:
+			return v
+		}
+	}
+}
+
+// splitOf: the call yields strings.Split(op, sep) with a non-empty constant sep, directly or through a module
+// function every return of which is such a split of one of its parameters.
+func (s *idxSolver) splitOf(call *ssa.Call) (ssa.Value, string, bool) {
+	if staticName(&call.Call) == "strings.Split" {
+		if sep, ok := prog.ConstString(call.Call.Args[1]); ok && sep != "" {
+			return call.Call.Args[0], sep, true
+		}
+		return nil, "", false
+	}
+	cal := call.Call.StaticCallee()
+	if cal == nil || !s.c.P.InModule(cal) || cal.Blocks == nil {
+		return nil, "", false
+	}
+	if cal.Signature.Results().Len() != 1 {
+		return nil, "", false
+	}
+	if _, isSlice := cal.Signature.Results().At(0).Type().Underlying().(*types.Slice); !isSlice {
+		return nil, "", false
+	}
+	pi, sep := -1, ""
+	for _, r := range returnsOf(cal) {
+		sc, ok := retValue(r, 0).(*ssa.Call)
+		if !ok || staticName(&sc.Call) != "strings.Split" {
+			return nil, "", false
+		}
+		sp, ok := prog.ConstString(sc.Call.Args[1])
+		pa, isP := stripConvs(sc.Call.Args[0]).(*ssa.Parameter)
+		if !ok || sp == "" || !isP {
+			return nil, "", false
+		}
+		idx := -1
+		for i, p := range cal.Params {
+			if p == pa {
+				idx = i
+			}
+		}
+		if idx < 0 || (pi >= 0 && (pi != idx || sep != sp)) {
+			return nil, "", false
+		}
+		pi, sep = idx, sp
+	}
+	if pi < 0 || pi >= len(call.Call.Args) {
+		return nil, "", false
+	}
+	return call.Call.Args[pi], sep, true
 }
